@@ -7,85 +7,85 @@ ROOT = os.path.dirname(os.path.dirname(os.path.abspath(__file__)))
 # id -> (technique, level text, level note, design ref)
 CHECKS = {
  "C01": ("proptest + libFuzzer over a byte choice sequence; differential against an independent reference model of the condition rules",
-         "parse_spends::<EmptyVisitor|MempoolVisitor> followed by OwnedSpendBundleConditions::from is compared, verdict and summary field by field, with vcore::model::conditions (written from the README implementation notes, flag doc-comments, eligibility comments and cost constants; evaluates the whole input, so it is independent of the implementation's evaluation order) on generated bundle trees: valid-by-construction bundles over small pools (so cross-spend relations match or nearly match) plus labelled condition-, spend- and list-level mutations, every subset of the four strictness/fork flags, signature validation on in ~10% with a harness-computed aggregate signature, and four allocator representations of the same value (canonical atoms, small numbers, substr/concat heap atoms, DAG vs expanded pairs). Exploration: hundreds of thousands of distinct non-trivial cases per quick run; cannot prove absence.",
+         "parse_spends::<EmptyVisitor|MempoolVisitor> followed by OwnedSpendBundleConditions::from is compared, verdict and summary field by field, with vcore::model::conditions (written from the README implementation notes, flag doc-comments, eligibility comments and cost constants; evaluates the whole input, so it is independent of the implementation's evaluation order) on generated bundle trees: valid-by-construction bundles over small pools (so cross-spend relations match or nearly match) plus labelled condition-, spend- and list-level mutations, every subset of the four strictness/fork flags, signature validation on in ~10% with a harness-computed aggregate signature, and four allocator representations of the same value (canonical atoms, small numbers, substr/concat heap atoms, DAG vs expanded pairs). Exploration: hundreds of thousands of distinct non-trivial cases per quick run; cannot prove absence. A second sub-check compares the model with run_spendbundle and run_block_generator2 on real programs (identity and run-time-evaluating puzzles); message key-confusion templates, 1-70 KB atoms and 1-2 KiB out-of-range integers are part of the generator.",
          "Trusts the reference model as the statement of the rules (error codes are not compared); public-key validity is delegated to chia-bls (decided by C16); the fast-forward bit is not compared for spends mixing ASSERT_MY_PARENT_ID with unrecognised opcodes.",
-         "DESIGN.md section 4, C01"),
+         "DESIGN.md sections 9.2/9.6 and 4, C01"),
  "C02": ("proptest; invariant asserted on every accepted result of five entry points, with generators constructing violations",
-         "The conservation/uniqueness invariant (Σ created + reserved fee ≤ Σ spent in 128-bit arithmetic, distinct coin ids, no duplicate (puzzle hash, amount) outputs per spend, totals equal the sums, coin id = sha256 of the canonical fields, puzzle hash = reference tree hash of the reveal) is checked on every Ok of parse_spends, run_block_generator, run_block_generator2, run_spendbundle and validate_clvm_and_signature. A dedicated frontier generator builds would-be violations: sums past 2^64, outputs whose sum modulo 2^64 is affordable while the true sum is not, reserve fees wrapping, balance/fee off by one, duplicate outputs differing only in hint, the same coin at two positions, up to 3000 spends.",
+         "The conservation/uniqueness invariant (Σ created + reserved fee ≤ Σ spent in 128-bit arithmetic, distinct coin ids, no duplicate (puzzle hash, amount) outputs per spend, totals equal the sums, coin id = sha256 of the canonical fields, puzzle hash = reference tree hash of the reveal) is checked on every Ok of parse_spends, run_block_generator, run_block_generator2, run_spendbundle and validate_clvm_and_signature. A dedicated frontier generator builds would-be violations: sums past 2^64, outputs whose sum modulo 2^64 is affordable while the true sum is not, reserve fees wrapping, balance/fee off by one, duplicate outputs differing only in hint, the same coin at two positions, up to 3000 spends. Frontier kinds include one spend with 1000-2500 outputs and amounts padded to the parser's length limit.",
          "Only accepted results are examined; puzzle hashes are compared with the harness's reference tree hash.",
-         "DESIGN.md section 4, C02"),
+         "DESIGN.md sections 9.2/9.6 and 4, C02"),
  "C03": ("proptest; per-assertion arithmetic model of every lock/birth condition in a generated chain state",
-         "For generated chain states and bundles of the 10 lock/birth kinds with arguments drawn around the state (boundary ±1, 0, type maximum, negative, oversized, redundant-zero, duplicates, opposing pairs, ephemeral parent/child), the implementation passes (parse_spends Ok and check_time_locks(nowrap) Ok) iff every original assertion evaluated separately over i128 with saturating sums holds and no relative/birth assertion sits on a coin created in the bundle; an Impossible*Constraints rejection must be backed by an unsatisfiable before/after pair in the same scope.",
+         "For generated chain states and bundles of the 10 lock/birth kinds with arguments drawn around the state (boundary ±1, 0, type maximum, negative, oversized, redundant-zero, duplicates, opposing pairs, ephemeral parent/child), the implementation passes (parse_spends Ok and check_time_locks(nowrap) Ok) iff every original assertion evaluated separately over i128 with saturating sums holds and no relative/birth assertion sits on a coin created in the bundle; an Impossible*Constraints rejection must be backed by an unsatisfiable before/after pair in the same scope. 0-3 bystander conditions per spend (ASSERT_EPHEMERAL on ephemeral spends, ASSERT_MY_*, announcements, REMARK, ...) that are satisfied by construction are mixed in between the locks; out-of-range arguments include 1-2 KiB atoms.",
          "Chain values are generated below the type maxima; legacy wrapping mode is out of scope.",
-         "DESIGN.md section 4, C03"),
+         "DESIGN.md sections 9.2/9.6 and 4, C03"),
  "C04": ("bounded-exhaustive sweep of the cost table + proptest; cost model (exact big-integer table), clvmr re-execution and limit metamorphic relation",
-         "Every row of the condition cost table (35 opcodes, unknown opcodes, all 256 two-byte cost slots × 5 high bytes, SOFTFORK arguments to 2^32-1, per-spend cost) is enumerated in both fork modes and both visitors and compared with the model's table; random bundles at parse_spends, run_block_generator2, run_block_generator and run_spendbundle (byte and INTERNED_GENERATOR pricing) must satisfy cost = byte|interned + execution + condition with execution cost recomputed by the harness with clvmr and the interned size by the harness's own de-duplication; accumulators must add up; every accepted result is re-run at max_cost = cost (identical result), at cost-1 and smaller limits (cost-exceeded) and at a larger limit (same cost). Exhaustive over the table rows, sampled elsewhere.",
+         "Every row of the condition cost table (35 opcodes, unknown opcodes, all 256 two-byte cost slots × 5 high bytes, SOFTFORK arguments to 2^32-1, per-spend cost) is enumerated in both fork modes and both visitors and compared with the model's table; random bundles at parse_spends, run_block_generator2, run_block_generator and run_spendbundle (byte and INTERNED_GENERATOR pricing) must satisfy cost = byte|interned + execution + condition with execution cost recomputed by the harness with clvmr and the interned size by the harness's own de-duplication; accumulators must add up; every accepted result is re-run at max_cost = cost (identical result), at cost-1 and smaller limits (cost-exceeded) and at a larger limit (same cost). Exhaustive over the table rows, sampled elsewhere. Limits are additionally probed at every prefix sum of the cost components (generator bytes, generator CLVM, each spend) ± 1.",
          "Legacy-path execution cost is taken from the report (only the sum identity and limit behaviour are checked there).",
-         "DESIGN.md section 4, C04"),
+         "DESIGN.md sections 9.2/9.6 and 4, C04"),
  "C05": ("proptest; constructive oracle (the harness signs the messages its own opcode table prescribes) plus single-point tamperings at every entry point and cache state",
-         "Bundles mixing the 8 AGG_SIG opcodes over amounts of every encoding length, three sets of domain constants: the multiset of (key, final message) the rules prescribe must equal run_spendbundle's pkm_pairs and make_aggsig_final_message; the correctly signed bundle must be accepted at parse_spends (both visitors), run_block_generator2, run_block_generator and validate_clvm_and_signature with no/cold/warm BlsCache; 19 single-point tamperings (share omitted/extra, negated/identity aggregate, message or key changed on either side, parent/puzzle/amount changed incl. across the sign-byte boundary, wrong domain constant, opcodes swapped, condition omitted/duplicated/moved, other network) must each be rejected; AGG_SIG_UNSAFE messages ending in any domain constant and 7 kinds of unacceptable keys are rejected everywhere while near misses are not.",
+         "Bundles mixing the 8 AGG_SIG opcodes over amounts of every encoding length, three sets of domain constants: the multiset of (key, final message) the rules prescribe must equal run_spendbundle's pkm_pairs and make_aggsig_final_message; the correctly signed bundle must be accepted at parse_spends (both visitors), run_block_generator2, run_block_generator and validate_clvm_and_signature with no/cold/warm BlsCache; 19 single-point tamperings (share omitted/extra, negated/identity aggregate, message or key changed on either side, parent/puzzle/amount changed incl. across the sign-byte boundary, wrong domain constant, opcodes swapped, condition omitted/duplicated/moved, other network) must each be rejected; AGG_SIG_UNSAFE messages ending in any domain constant and 7 kinds of unacceptable keys are rejected everywhere while near misses are not. A fourth sub-check enumerates bundles with 1..2051 distinct signature conditions (every power of two from 64 to 2048 ± 3): the full aggregate is accepted by pre-validation and block validation, one pairing is returned per condition, any single missing share is rejected.",
          "Signatures are produced with chia-bls itself (its correctness is C15/C16's subject).",
-         "DESIGN.md section 4, C05"),
+         "DESIGN.md sections 9.2/9.6 and 4, C05"),
  "C06": ("proptest; metamorphic relations between runs (strict ⇒ lenient with identical summary; permutation invariance incl. at the cost limit)",
          "No model: (1) for strictness sets S1 ⊆ S2 ⊆ {NO_UNKNOWN_CONDS, STRICT_ARGS_COUNT, LIMIT_SPENDS}, Ok under S2 implies Ok under S1 with an identical summary; (2) a generated permutation of spends and of conditions within spends leaves verdict, cost, every aggregate and every per-coin summary unchanged (ELIGIBLE_FOR_FF excepted), also at max_cost = cost and cost-1. Generators are biased to bundles that pass full strictness so the premises hold in ~60% of cases.",
          "Signature validation is off in these runs; created-coin lists are compared as sets.",
-         "DESIGN.md section 4, C06"),
+         "DESIGN.md sections 9.2/9.6 and 4, C06"),
  "C07": ("proptest + libFuzzer; differential legacy vs native generator execution",
          "run_block_generator and run_block_generator2 are run on the same program, block references, flags and cost limit: structured generators (library-built, quoted plain/back-reference, procedural cons, deserializing a block reference through the passed deserializer) with labelled output-shape mutations, byte-mutated programs, flag sets incl. MEMPOOL_MODE/SIMPLE_GENERATOR/LIMIT_HEAP, limits at and between the two totals. Both-accept must agree on spends, conditions, amounts, fee, locks and condition cost with native cost ≤ legacy cost; the only tolerated asymmetry is the legacy path failing on cost/interpreter resource limits.",
          "INTERNED_GENERATOR is excluded (the legacy path has no interned pricing); error codes of double rejections are not compared.",
-         "DESIGN.md section 4, C07"),
+         "DESIGN.md sections 9.2/9.6 and 4, C07"),
  "C08": ("proptest; differential over five validation paths plus cost and length relations",
-         "run_spendbundle vs run_block_generator2 on four generators built from the same bundle (solution_generator, solution_generator_backrefs, BlockBuilder, InternedBlockBuilder) under 8 flag sets × byte/interned pricing: same verdict, same conditions (matched by coin id), condition cost equal, execution cost differing by the quote (20), cost(plain) − cost(mempool) = 20 + 2·cost_per_byte (byte mode) or 20 (interned), non-byte cost equal across serializations, interned cost independent of serialization, predicted generator length = actual.",
+         "run_spendbundle vs run_block_generator2 on four generators built from the same bundle (solution_generator, solution_generator_backrefs, BlockBuilder, InternedBlockBuilder) under 8 flag sets × byte/interned pricing: same verdict, same conditions (matched by coin id), condition cost equal, execution cost differing by the quote (20), cost(plain) − cost(mempool) = 20 + 2·cost_per_byte (byte mode) or 20 (interned), non-byte cost equal across serializations, interned cost independent of serialization, predicted generator length = actual. Rare bulk bundles of about 1 MB of repetitive content (two spends sharing a 400-520 kB atom; ~3000 spends of one puzzle) exercise the regime where byte pricing, interned pricing and compression differ most.",
          "Mempool-only outputs (eligibility bits, fingerprint) excluded; reveals are plainly serialized (the statement's precondition).",
-         "DESIGN.md section 4, C08"),
+         "DESIGN.md sections 9.2/9.6 and 4, C08"),
  "C09": ("proptest + libFuzzer; differential of every trusted helper against validated conditions",
-         "For generators accepted by run_block_generator2 (all CREATE_COIN memo shapes, amount encodings, unknown/non-atom opcodes, spend-level extra fields): additions_and_removals, get_coinspends_for_trusted_block (incl. re-validation of the rebuilt generator), get_coinspends_with_conditions_for_trusted_block, get_puzzle_and_solution_for_coin for every removed coin, and SpendBundle::additions (for bundles also valid under mempool strictness) must report what validation reports.",
+         "For generators accepted by run_block_generator2 (all CREATE_COIN memo shapes, amount encodings, unknown/non-atom opcodes, spend-level extra fields): additions_and_removals, get_coinspends_for_trusted_block (incl. re-validation of the rebuilt generator), get_coinspends_with_conditions_for_trusted_block, get_puzzle_and_solution_for_coin for every removed coin, and SpendBundle::additions (for bundles also valid under mempool strictness) must report what validation reports. INTERNED_GENERATOR pricing in a quarter of the cases; one case in 600 is a 0.5-1.3 MB repetitive block validated within the real block cost limit.",
          "The validated conditions are the reference. SpendBundle::additions is asserted only for bundles valid under mempool strictness (in pure consensus mode a pair opcode is ignored, this convenience helper refuses it).",
-         "DESIGN.md section 4, C09"),
+         "DESIGN.md sections 9.2/9.6 and 4, C09"),
  "C10": ("proptest stateful (model-based) add/finalize histories for both builders; model of accepted attempts, consensus re-run, fresh-builder comparison, exact-fit probing with a shadow builder",
-         "Histories of 1-24 add_spend_bundles attempts (batches of 1-3 bundles from a pool with cross-bundle shared sub-trees, declared costs truthful / inflated / arbitrary / exact-fit computed with a shadow builder) followed by finalize, for BlockBuilder and InternedBlockBuilder: a rejected attempt leaves cost() unchanged; the finalized generator decodes to exactly the multiset of spends of the accepted attempts; the signature is the aggregate of exactly theirs; returned cost <= max_block_cost_clvm, <= the last cost() estimate, and equal to run_block_generator2's cost for truthful declarations; a fresh builder fed only the accepted attempts yields the same spends/signature and accepts the same later attempts; finalize never panics (in-flight recorder + process-death attribution).",
+         "Histories of 1-24 add_spend_bundles attempts (batches of 1-3 bundles from a pool with cross-bundle shared sub-trees, declared costs truthful / inflated / arbitrary / exact-fit computed with a shadow builder) followed by finalize, for BlockBuilder and InternedBlockBuilder: a rejected attempt leaves cost() unchanged; the finalized generator decodes to exactly the multiset of spends of the accepted attempts; the signature is the aggregate of exactly theirs; returned cost <= max_block_cost_clvm, <= the last cost() estimate, and equal to run_block_generator2's cost for truthful declarations; a fresh builder fed only the accepted attempts yields the same spends/signature and accepts the same later attempts; finalize never panics (in-flight recorder + process-death attribution). 'Family' pools (same-shaped bundles, some with atoms of 0.3-1.3 MB that are rejected only after serialization) exercise the undo path with megabytes of parsed content.",
          "An attempt is the whole batch (one declared cost, one limit test, one undo). Declared costs above twice the block limit are outside the documented contract and not generated. Byte-for-byte equality of generators is measured, not asserted.",
-         "DESIGN.md section 4, C10"),
+         "DESIGN.md sections 9.2/9.6 and 4, C10"),
  "C11": ("bounded-exhaustive enumeration + proptest random values against an arithmetic (num-bigint) reference and the interpreter's own encoder",
-         "Every integer encoder/decoder in the tree (Coin::coin_id, u64_to_bytes, clvm_bytes_len, clvm-traits ints of every width, compute_coin_id and the AGG_SIG_AMOUNT suffix as consensus reports them, sanitize_uint widths 4/8) is compared with an arithmetic reference and with clvmr's Allocator::new_number on: all boundary values (2^k±3, all 1-/2-bit patterns, all 16-bit values), every value below 2^27 (quick) / 2^32 (thorough), millions of random values of every bit length, every atom of length ≤2 and every atom of length 3..10 over {00,01,7f,80,ff}. Exhaustive on those finite sub-domains, sampled elsewhere; a moved ladder threshold is caught because the thresholds themselves are enumerated.",
+         "Every integer encoder/decoder in the tree (Coin::coin_id, u64_to_bytes, clvm_bytes_len, clvm-traits ints of every width, compute_coin_id and the AGG_SIG_AMOUNT suffix as consensus reports them, sanitize_uint widths 4/8) is compared with an arithmetic reference and with clvmr's Allocator::new_number on: all boundary values (2^k±3, all 1-/2-bit patterns, all 16-bit values), every value below 2^27 (quick) / 2^32 (thorough), millions of random values of every bit length, every atom of length ≤2 and every atom of length 3..10 over {00,01,7f,80,ff}. Exhaustive on those finite sub-domains, sampled elsewhere; a moved ladder threshold is caught because the thresholds themselves are enumerated. A recording ClvmEncoder and tree_hash() of integers are further encoder paths; 3 % of the random atoms are oversized (30 bytes .. 64 KiB).",
          "Trusts num-bigint's two's-complement conversion and clvmr's Allocator (cross-checked against each other in every case). Private helpers are observed through their public callers.",
-         "DESIGN.md section 4, C11"),
+         "DESIGN.md sections 9.2/9.6 and 4, C11"),
  "C12": ("proptest + bounded-exhaustive enumeration of proof trees; reference trie hash and independent proof parser; root-preserving proof rewrites",
-         "compute_merkle_set_root, MerkleSet::from_leafs().get_root() and a reference implementation written from the definition agree under permutation and duplication; generate_proof/validate_merkle_proof are complete for members and non-members sharing k-bit prefixes with members; soundness is attacked with structural rewrites of honest proofs (the model decides which keep the root) and with exhaustive enumeration of all proof trees over small alphabets/depths validated against every honest subset root: validate_merkle_proof must return Err or the true membership. Exhaustive on the enumerated spaces, sampled elsewhere.",
+         "compute_merkle_set_root, MerkleSet::from_leafs().get_root() and a reference implementation written from the definition agree under permutation and duplication; generate_proof/validate_merkle_proof are complete for members and non-members sharing k-bit prefixes with members; soundness is attacked with structural rewrites of honest proofs (the model decides which keep the root) and with exhaustive enumeration of all proof trees over small alphabets/depths validated against every honest subset root: validate_merkle_proof must return Err or the true membership. Exhaustive on the enumerated spaces, sampled elsewhere. Staircase sets (up to 257 leaves with a non-empty sibling at almost every one of the 256 levels) produce the longest honest proofs (8737 bytes).",
          "Soundness over all byte strings can be refuted, not proved; the bounds explored are in the evidence.",
-         "DESIGN.md section 4, C12"),
+         "DESIGN.md sections 9.2/9.6 and 4, C12"),
  "C13": ("proptest over a registry of 226 Streamable types; round-trip, canonicity under single-byte perturbation, hash relation, trusted/untrusted agreement",
-         "For well-formed generated values of every Streamable type in chia-protocol, chia-bls, chia-consensus, chia-datalayer and the primitive/combinator instantiations (version-packed ProofOfSpace/FullBlock/UnfinishedBlock fixed up through 24 container types): from_bytes(to_bytes(v)) = v (also unchecked); every single-byte perturbation, truncation and extension of the encoding that still decodes must re-encode to exactly those bytes; hash = sha256(encoding), with the quality-string commitment rule for version-2 proofs of space checked on the 7 recorded vectors inside every container; untrusted acceptance implies trusted acceptance with the same value. A registry-drift detector reports uncovered types in the evidence.",
+         "For well-formed generated values of every Streamable type in chia-protocol, chia-bls, chia-consensus, chia-datalayer and the primitive/combinator instantiations (version-packed ProofOfSpace/FullBlock/UnfinishedBlock fixed up through 24 container types): from_bytes(to_bytes(v)) = v (also unchecked); every single-byte perturbation, truncation and extension of the encoding that still decodes must re-encode to exactly those bytes; hash = sha256(encoding), with the quality-string commitment rule for version-2 proofs of space checked on the 7 recorded vectors inside every container; untrusted acceptance implies trusted acceptance with the same value. A registry-drift detector reports uncovered types in the evidence. Sub-check big-lists: lists whose length lies around the decoder's 2 MiB pre-allocation limit of their element type (in memory and in wire bytes) and multiples of it, 18 element types x {bare, followed by a field} + RespondToPhUpdates.",
          "Canonicity over all byte strings can be refuted, not proved; values embedding a v2 proof without a quality string have no defined hash and are skipped (counted).",
-         "DESIGN.md section 4, C13"),
+         "DESIGN.md sections 9.2/9.6 and 4, C13"),
  "C14": ("proptest with adversarial byte generators, counting global allocator and in-flight recorder; totality and resource invariants",
-         "For every registry type, trusted and untrusted: random bytes, mutated valid encodings, valid +- one byte, every length-prefix window set to 2^32-1/2^31/2^24/remaining+1, nested length prefixes, deep/huge Program fields, swept version/prefix bytes. Decoding returns Ok or Err without panic; peak extra allocation stays below 32 MiB + 64*len (counting allocator); trailing/missing bytes are rejected; on Ok, to_bytes/hash/==/clone complete. A process death is attributed by the driver to the in-flight case and is a violation of this property.",
+         "For every registry type, trusted and untrusted: random bytes, mutated valid encodings, valid +- one byte, every length-prefix window set to 2^32-1/2^31/2^24/remaining+1, nested length prefixes, deep/huge Program fields, swept version/prefix bytes. Decoding returns Ok or Err without panic; peak extra allocation stays below 32 MiB + 64*len (counting allocator); trailing/missing bytes are rejected; on Ok, to_bytes/hash/==/clone complete. A process death is attributed by the driver to the in-flight case and is a violation of this property. Sub-check big-lists: valid encodings of long lists with further well-formed elements behind the last one, the length prefix off by one, a trailing / missing byte. Every decode is additionally bounded in CPU time of the decoding thread (0.5 s + 20 µs/byte, reported only when six consecutive decodes of the same input exceed it).",
          "'Never loops' has no timing assertion: the engine watchdog (exit 2) is the only safety net. The ProofOfSpace hash panic (F3) is a listed known finding.",
-         "DESIGN.md section 4, C14"),
+         "DESIGN.md sections 9.2/9.6 and 4, C14"),
  "C15": ("proptest (model-based cache histories) + exhaustive enumeration of thread interleavings through feature-gated yield points; secret-key model of the verdict",
-         "verify, aggregate_verify, aggregate_verify_gt (over harness-computed pairings) and BlsCache::aggregate_verify (cold/warm) are compared with a model that knows every secret key (valid iff no key is infinity and the signature equals the aggregate the harness computed) on pair lists with repeated keys/messages, empty messages, the infinity key, tampered/identity/off-subgroup signatures; sequential histories of Verify/Update/Evict on caches of capacity 1..6 check len <= capacity and history-independence; concurrent verifications are executed under a controller that owns the schedule (yield point before every BlsCache lock acquisition, feature chia-bls/verif-hooks): all interleavings of 2 threads x <=2 pairs are enumerated exhaustively, larger configurations sampled.",
+         "verify, aggregate_verify, aggregate_verify_gt (over harness-computed pairings) and BlsCache::aggregate_verify (cold/warm) are compared with a model that knows every secret key (valid iff no key is infinity and the signature equals the aggregate the harness computed) on pair lists with repeated keys/messages, empty messages, the infinity key, tampered/identity/off-subgroup signatures; sequential histories of Verify/Update/Evict on caches of capacity 1..6 check len <= capacity and history-independence; concurrent verifications are executed under a controller that owns the schedule (yield point before every BlsCache lock acquisition, feature chia-bls/verif-hooks): all interleavings of 2 threads x <=2 pairs are enumerated exhaustively, larger configurations sampled. The infinity key appears in four in-memory representations (default, parsed, pk + (-pk), pk(sk) + pk(r-sk)).",
          "Interleavings are explored at lock granularity (what the statement names); races inside the Mutex or in blst are out of reach. The hook is compiled only with the feature, which no /repo workspace member enables.",
-         "DESIGN.md section 4, C15"),
+         "DESIGN.md sections 9.2/9.6 and 4, C15"),
  "C16": ("proptest; round-trip, unique-encoding and homomorphism laws with an independent subgroup-order test",
-         "Public keys, signatures, secret keys and GT elements round-trip with unique encodings (also through Streamable); checked parsing accepts only infinity or points of order r (decided independently by (r-1)P + P = 0) and is a subset of unchecked parsing, on perturbed encodings (flag bits, stray infinity bits, x +- field modulus, random on-curve x, scalars around the group order); unhardened derivation and synthetic-key derivation commute with taking the public key along whole paths incl. boundary indexes; key addition is a homomorphism; signing is deterministic.",
+         "Public keys, signatures, secret keys and GT elements round-trip with unique encodings (also through Streamable); checked parsing accepts only infinity or points of order r (decided independently by (r-1)P + P = 0) and is a subset of unchecked parsing, on perturbed encodings (flag bits, stray infinity bits, x +- field modulus, random on-curve x, scalars around the group order); unhardened derivation and synthetic-key derivation commute with taking the public key along whole paths incl. boundary indexes; key addition is a homomorphism; signing is deterministic. Sub-check key-sequences: the derivation laws over call sequences alternating between two master keys, incl. distinct keys with EQUAL 32-bit fingerprints found by a birthday search at start-up.",
          "The commutation law cannot see a synthetic offset that is wrong on both routes (both call the same private function); agreement with the standard definition is measured as a label, asserted only with VERIF_C16_ASSERT_DEFINITION=1.",
-         "DESIGN.md section 4, C16"),
+         "DESIGN.md sections 9.2/9.6 and 4, C16"),
  "C17": ("proptest (trees and cache histories) + exhaustive small-atom sweep against a recursive reference hash",
-         "tree_hash, tree_hash_cached (fresh cache, reused cache, after the visit_tree pre-pass, across histories of up to 8 trees sharing sub-trees in one allocator), tree_hash_from_bytes on plain and back-reference serializations, the TreeHasher encoder, curry_tree_hash and (through fast_forward_singleton) curry_and_treehash are all compared with the harness's reference sha256 tree hash on deep chains (50k), wide lists, layered DAGs and every allocator representation of small atoms; the 24 precomputed small-atom hashes are recomputed exhaustively.",
+         "tree_hash, tree_hash_cached (fresh cache, reused cache, after the visit_tree pre-pass, across histories of up to 8 trees sharing sub-trees in one allocator), tree_hash_from_bytes on plain and back-reference serializations, the TreeHasher encoder, curry_tree_hash and (through fast_forward_singleton) curry_and_treehash are all compared with the harness's reference sha256 tree hash on deep chains (50k), wide lists, layered DAGs and every allocator representation of small atoms; the 24 precomputed small-atom hashes are recomputed exhaustively. Sub-check big-cache-history: one TreeCache across more than 2^16 memoized pairs; atoms of 1-70 KB.",
          "The reference hash is the harness's own bottom-up implementation over an arena; clvmr is trusted for serialization of inputs.",
-         "DESIGN.md section 4, C17"),
+         "DESIGN.md sections 9.2/9.6 and 4, C17"),
  "C18": ("proptest stateful (model-based) histories against a BTreeMap model and an independent tree-hash/proof recomputation",
-         "Histories of up to 60 operations (insert at auto/root/leaf locations incl. free and out-of-range indexes, upsert, delete, batch insert with fresh and duplicate entries, lazy hash calculation, reload, proofs) over small and large key spaces; after every step the blob's content equals the model (updated iff the operation returned Ok), check_integrity passes, a failed operation leaves content/root unchanged, reload is equivalent, the root equals the harness's bottom-up recomputation and every key has a valid inclusion proof ending in that root. Known genuine defects are keyed on oracle signatures and excluded by construction so the search continues behind them.",
+         "Histories of up to 60 operations (insert at auto/root/leaf locations incl. free and out-of-range indexes, upsert, delete, batch insert with fresh and duplicate entries, lazy hash calculation, reload, proofs) over small and large key spaces; after every step the blob's content equals the model (updated iff the operation returned Ok), check_integrity passes, a failed operation leaves content/root unchanged, reload is equivalent, the root equals the harness's bottom-up recomputation and every key has a valid inclusion proof ending in that root. Known genuine defects are keyed on oracle signatures and excluded by construction so the search continues behind them. One history in twenty starts with a chain prologue (2-140 inserts each at the leaf inserted last, i.e. a tree as deep as it has leaves).",
          "The model encodes no failure policy: which operations must succeed is not asserted (only non-vacuity floors).",
-         "DESIGN.md section 4, C18"),
+         "DESIGN.md sections 9.2/9.6 and 4, C18"),
  "C19": ("proptest; re-execution of rewritten singleton spends, metamorphic pairs for fingerprint injectivity, independent scan for eligibility",
-         "Genuine singleton spends (real SINGLETON_TOP_LAYER_V1_1 curried, (q . conditions) inner puzzles, consistent lineage; plus the two recorded spends) are fast-forwarded onto generated targets: whenever the rewrite succeeds the new solution may differ from the old one only at the three lineage/amount atoms, must run as a spend of the new coin through run_spendbundle and create the same coins; 23 kinds of single-field corruption must be refused. Pairs of condition lists for the same coin differing by one atom, an atom-boundary shift, a hint shape, a memo, a REMARK argument, a swap or an integer encoding: equal dedup fingerprints (both accepted and eligible) imply equal parsed conditions and summaries. ELIGIBLE_FOR_DEDUP implies no AGG_SIG/message condition and created value >= coin amount, by an independent scan.",
+         "Genuine singleton spends (real SINGLETON_TOP_LAYER_V1_1 curried, (q . conditions) inner puzzles, consistent lineage; plus the two recorded spends) are fast-forwarded onto generated targets: whenever the rewrite succeeds the new solution may differ from the old one only at the three lineage/amount atoms, must run as a spend of the new coin through run_spendbundle and create the same coins; 23 kinds of single-field corruption must be refused. Pairs of condition lists for the same coin differing by one atom, an atom-boundary shift, a hint shape, a memo, a REMARK argument, a swap or an integer encoding: equal dedup fingerprints (both accepted and eligible) imply equal parsed conditions and summaries. ELIGIBLE_FOR_DEDUP implies no AGG_SIG/message condition and created value >= coin amount, by an independent scan. 27 corruptions, incl. coins that carry the puzzle hash of a sibling singleton differing from the reveal in one curried component.",
          "That genuine inputs are in fact rewritten is a non-vacuity floor, not an assertion. Injectivity over all pairs can be refuted, not proved.",
-         "DESIGN.md section 4, C19"),
+         "DESIGN.md sections 9.2/9.6 and 4, C19"),
  "C20": ("proptest through an embedded CPython interpreter (pyo3): JSON-dict round-trip plus single-node corruptions that must raise",
-         "For generated values of 178 root types (every #[streamable] struct of chia-protocol read from the sources at build time, conditions, datalayer records, BLS elements, all integer widths, Option/Vec/tuple/array combinators) from_json_dict(to_json_dict(v)) must reproduce the value, its bytes and its hash; 12 single-node edits per case are classified as invalid (deleted key, None for non-optional, out-of-range/typed-wrong integers, bad hex, wrong fixed lengths, wrong tuple/array arity: must raise) or valid (must be accepted and reflected exactly).",
+         "For generated values of 178 root types (every #[streamable] struct of chia-protocol read from the sources at build time, conditions, datalayer records, BLS elements, all integer widths, Option/Vec/tuple/array combinators) from_json_dict(to_json_dict(v)) must reproduce the value, its bytes and its hash; 12 single-node edits per case are classified as invalid (deleted key, None for non-optional, out-of-range/typed-wrong integers, bad hex, wrong fixed lengths, wrong tuple/array arity: must raise) or valid (must be accepted and reflected exactly). About 1 % of the byte strings and program atoms are 1-100 KB long.",
          "Runs the Rust callees of the Python bindings through an embedded interpreter; the cdylib wrappers in wheel/src/api.rs are not linked. Edits whose validity the statement does not fix (missing 0x prefix, deleted key of an Option field) are counted but not asserted.",
-         "DESIGN.md section 4, C20"),
+         "DESIGN.md sections 9.2/9.6 and 4, C20"),
 }
 
 NOT_YET = "check not built yet in this revision of /verif (work in progress; see DESIGN.md section 4 for the planned generated-input check)"
